@@ -339,6 +339,10 @@ def c10(tier, seed):
 def c20(tier, seed):
     return dict(
         jobs=diff_jobs("C20", tier, seed, dict(flags=0.1, nest=0.45, nest_flag=0.0, share_fns=0.6, max_stmts=7, seq=0.3), 3, scale=0.7)
+        # DAGs obtained through compose() (node inputs incl. several usages of one function in any order) called inside an outer DAG
+        + [dict(kind="comp19", pid="C20", n_cases=(150 if tier == "quick" else 1500),
+                only=["composed_dag_cannot_be_nested_like_it_is_called", "nested_composed_dag_returns_another_value_than_the_direct_call"],
+                **_seeds(seed + 7, k)) for k in range(2 if tier == "quick" else 8)]
         # nested calls and plain calls of the SAME functions carrying (mostly constant) activation flags: the helper nodes that hold
         # such constants are prefixed like everything else
         + diff_jobs("C20", tier, seed + 3, dict(flags=0.45, nest=0.45, nest_flag=0.5, share_fns=0.8, const_flag=0.6, max_stmts=6), 2, scale=0.4, nj_scale=0.5),
